@@ -23,7 +23,8 @@ Row(p) == [p |-> p, wd |-> WellDefined(p, EG),
 
 \* properties of the definition, evaluated on every enumerated pattern (only where defined)
 Sane(p) == WellDefined(p, EG) =>
-             /\ \A s \in Subjects : Match(p, s, EG, FALSE) => Match(p, s, EG, TRUE)          \* folding only adds matches
+             /\ ((\A i \in 1..Len(p) : p[i] \notin {"^", "!", "!("}) =>
+                    \A s \in Subjects : Match(p, s, EG, FALSE) => Match(p, s, EG, TRUE))          \* folding only adds matches (unless something is negated)
              /\ (p # <<>> /\ p[Len(p)] = "*" /\ (Len(p) = 1 \/ p[Len(p)-1] \notin {"\\", "["} \cup ExtOpeners)) =>
                    \A s \in Subjects : Match(p, s, EG, FALSE) => \A c \in SubChars : Len(s) < SubLen => Match(p, Append(s, c), EG, FALSE)
 
